@@ -164,11 +164,16 @@ LinearClauses(T, e) ==
                      hi == SumBySize(T, cfg, [a \in 1..NA(T) |-> e.env.obs[a][2]], k)
                  IN  lo - T.lintol <= e.lin_obs[k + 1][2] /\ e.lin_obs[k + 1][1] <= hi + T.lintol)
 
+\* an event whose outputs could not be logged (values outside the exact domain from exact inputs) carries no usable state:
+\* it fails NoException for every property evaluated, and neither it nor its successor is compared with the specification
+Usable(e) == e.exc # "UnloggableOutput"
 Failures(T, i, ch2) ==
   LET e == T.events[i] IN
+  IF ~Usable(e) THEN UNION {Fail(p, "NoException_UnloggableOutput", FALSE) : p \in Props}
+  ELSE
      (IF e.exc = "" \/ e.op \in {"step", "unstep", "lin_step"} THEN StateClauses(T, e, ch2) ELSE Fail("C09", "NoException", FALSE))
   \cup (IF e.op \in {"reset", "step", "unstep"} /\ e.exc = "" THEN ReturnClauses(T, e) ELSE {})
-  \cup (IF i >= 2 THEN StepClauses(T, i, ch2) ELSE
+  \cup (IF i >= 2 /\ ~Usable(T.events[i - 1]) THEN {} ELSE IF i >= 2 THEN StepClauses(T, i, ch2) ELSE
           Fail("C09", "ConstructedEnvironmentIsFreshlyReset", e.op = "construct" /\ e.env.draws >= 1 /\ e.env.steps = 0))
   \cup (IF T.linear = 1 THEN LinearClauses(T, e) ELSE {})
 
